@@ -144,3 +144,24 @@ func (x *Bool) Load() bool                    { pt(nil); return x.v.Load() }
 func (x *Bool) Store(v bool)                  { pt(nil); x.v.Store(v) }
 func (x *Bool) Swap(v bool) bool              { pt(nil); return x.v.Swap(v) }
 func (x *Bool) CompareAndSwap(o, n bool) bool { pt(nil); return x.v.CompareAndSwap(o, n) }
+
+type Uintptr struct{ v atomic.Uintptr }
+
+func (x *Uintptr) Load() uintptr                    { pt(nil); return x.v.Load() }
+func (x *Uintptr) Store(v uintptr)                  { pt(nil); x.v.Store(v) }
+func (x *Uintptr) Add(d uintptr) uintptr            { pt(nil); return x.v.Add(d) }
+func (x *Uintptr) Swap(v uintptr) uintptr           { pt(nil); return x.v.Swap(v) }
+func (x *Uintptr) CompareAndSwap(o, n uintptr) bool { pt(nil); return x.v.CompareAndSwap(o, n) }
+
+// Pointer replaces atomic.Pointer[T].
+type Pointer[T any] struct{ v atomic.Pointer[T] }
+
+func (x *Pointer[T]) Load() *T                    { pt(nil); return x.v.Load() }
+func (x *Pointer[T]) Store(v *T)                  { pt(nil); x.v.Store(v) }
+func (x *Pointer[T]) Swap(v *T) *T                { pt(nil); return x.v.Swap(v) }
+func (x *Pointer[T]) CompareAndSwap(o, n *T) bool { pt(nil); return x.v.CompareAndSwap(o, n) }
+
+func SwapUintptr(addr *uintptr, v uintptr) uintptr {
+	pt(unsafe.Pointer(addr))
+	return atomic.SwapUintptr(addr, v)
+}
